@@ -68,6 +68,12 @@ def gen_backlog(rng, k):
         rh = nh()
         H[h] = ["tcp_rep %d" % a, "tcp_lep %d" % a, "tcp_read %d %d : 10" % (a, rh)]
         cur = h
+    if r.random() < 0.3:
+        # the acceptor is closed with the clients still queued and re-opened on another port:
+        # none of the queued connects may be handed out (or complete) afterwards
+        rb = nh()
+        ops += ["expires_after 98 %d" % (t + 500000000), "async_wait 98 %d" % rb]
+        H[rb] = ["tcp_close 1", "tcp_open 1 1", "tcp_bind 1 0 0 %d" % r.choice([1444, port]), "listen 1 10"]
     ops += ["expires_after 99 %d" % (t + r.choice([2000000000, 700000000])), "async_wait 99 %d" % first]
     L += ["M " + o for o in ops]
     for h in sorted(H):
@@ -110,6 +116,14 @@ def oracle(lines, trace):
                     fails.append(("c07/connector-view", "connector dialled %s but remote_endpoint() says %s" % (dialled, rep[0]["ret"][1:4])))
             if h in comp and comp[h][1][0] == 3 and comp[h][0] <= e["t"]:
                 fails.append(("c07/refusal-delay", "connection_refused delivered without a positive delay"))
+    # a connect that was queued when its acceptor was closed is never completed by a later accept
+    tcl = [e["t"] for e in ev if e["op"][0] == "tcp_close" and e["op"][1] == "1"]
+    if tcl:
+        for e in ev:
+            if e["op"][0] == "tcp_connect" and e["t"] < tcl[0]:
+                h = int(e["op"][5])
+                if h in comp and comp[h][1][0] == 0 and comp[h][0] > tcl[0]:
+                    fails.append(("c07/stale-backlog", "a connect issued at t=%d, still queued when the acceptor was closed at t=%d, completed with success at t=%d" % (e["t"], tcl[0], comp[h][0])))
     # backlog scenario: connections are handed out in arrival order
     if any(l.startswith("M async_wait 99 ") for l in lines):
         issue = {}
